@@ -137,6 +137,25 @@ def render(ctx):
                     out.append((f"C06:extension-padding:{'eom' if ch.in_eom() else 'std'}", f"{name}: +{extra} ns pads amp {xa[-1]} det {xd[-1]}, expected {ea[-1]} / {ed[-1]}"))
                 elif ch.end and np.any(np.abs(xp[ch.end:] - iph[-1]) > TOL):
                     out.append((f"C06:extension-phase", f"{name}: padded phase {xp[-1]} vs last phase {iph[-1]}"))
+        # 3b. extension of the whole set of samples: every channel padded to exactly the requested duration (also when it is the
+        # duration of the longest channel)
+        Tmax = max(c.end for c in snap.channels.values())
+        for newT in (Tmax, Tmax + 1, Tmax + 37):
+            try:
+                es = ss.extend_duration(newT)
+            except Exception as e:
+                out.append((f"C06:sequence-extension-raises:{type(e).__name__}", f"extend_duration({newT}) with longest channel {Tmax}: {e}"[:200]))
+                continue
+            ctx.act["sequence_extensions_checked"] += 1
+            for name, ch in snap.channels.items():
+                e = es.channel_samples[name]
+                ea, ed = refrender.channel_arrays(ch, newT)
+                xa, xd = (np.asarray(x.as_array(detach=True), dtype=float) for x in (e.amp, e.det))
+                if len(xa) != newT or len(xd) != newT or len(e.phase) != newT:
+                    out.append((f"C06:sequence-extension-length:{'at-longest' if newT == Tmax else 'beyond'}",
+                                f"{name}: {len(xa)} samples after extend_duration({newT}) (channel ends at {ch.end}, longest at {Tmax})"))
+                elif not _close(xa, ea) or not _close(xd, ed):
+                    out.append((f"C06:sequence-extension-padding:{'eom' if ch.in_eom() else 'std'}", f"{name}: extend_duration({newT})"))
         # 2. per atom / basis
         ref, T = refrender.atom_view(snap, w)
         for all_local in (False, True):
